@@ -289,10 +289,12 @@ type c04Spec struct {
 	Local   string    `json:"local"` // none valid stale corrupt
 	LocalSq int       `json:"local_seq,omitempty"`
 	LocalTg int       `json:"local_tag,omitempty"`
-	Plan    string    `json:"plan,omitempty"` // name of the fixed tie scenario (empty: random case)
-	Resps   []c04Resp `json:"resps"`   // responder i answers with Resps[i]
-	Node    string    `json:"node"`    // pk: what the peer itself answers: correct wrongkey garbage miskeyed norec error
-	Choices []int     `json:"choices"` // schedule
+	Plan    string    `json:"plan,omitempty"`          // name of the fixed tie scenario (empty: random case)
+	Slow    bool      `json:"slow_consumer,omitempty"` // search: the caller reads the result channel only once nothing else moves
+	K       int       `json:"bucket_size,omitempty"`   // 0: 20
+	Resps   []c04Resp `json:"resps"`                   // responder i answers with Resps[i]
+	Node    string    `json:"node"`                    // pk: what the peer itself answers: correct wrongkey garbage miskeyed norec error
+	Choices []int     `json:"choices"`                 // schedule
 }
 
 func (r c04Resp) value() []byte {
@@ -425,13 +427,14 @@ func c04Keys() *c04PkSet {
 // ---- running one case --------------------------------------------------------------------------------
 
 type c04Run struct {
-	spec  c04Spec
-	obs   c04Obs
-	peers []peer.ID
-	idx   map[peer.ID]int
-	gate  *c04Gate
-	key   string // the key searched for
-	tags  map[string]bool
+	spec   c04Spec
+	obs    c04Obs
+	peers  []peer.ID
+	idx    map[peer.ID]int
+	gate   *c04Gate
+	key    string // the key searched for
+	tags   map[string]bool
+	addrOf map[peer.ID]ma.Multiaddr
 }
 
 func c04DsKey(key string) ds.Key {
@@ -469,6 +472,17 @@ func (r *c04Run) reply(c *c04Call) (*pb.Message, error) {
 		return resp, nil
 	}
 	sp := r.spec.Resps[i]
+	if r.spec.Slow {
+		// slow-consumer cases: every responder refers to all the others on its network, so the lookup hears of
+		// (and asks) peers that did not fit into the small routing table
+		var infos []peer.AddrInfo
+		for j, q := range r.peers {
+			if j != i && r.spec.Resps[j].Net == c.net {
+				infos = append(infos, peer.AddrInfo{ID: q, Addrs: []ma.Multiaddr{r.addrOf[q]}})
+			}
+		}
+		resp.CloserPeers = pb.RawPeerInfosToPBPeers(infos)
+	}
 	if r.spec.Op == "pk" {
 		switch sp.Kind {
 		case "correct":
@@ -529,6 +543,10 @@ func (r *c04Run) run(t *testing.T) {
 			a, _ = ma.NewMultiaddr(fmt.Sprintf("/ip4/%d.%d.1.7/tcp/4001", 11+i, 3*i+1))
 		}
 		net.addrs[p] = a
+		if r.addrOf == nil {
+			r.addrOf = map[peer.ID]ma.Multiaddr{}
+		}
+		r.addrOf[p] = a
 		ps.AddAddr(p, a, peerstore.PermanentAddrTTL)
 	}
 	r.key = c04Key
@@ -572,10 +590,22 @@ func (r *c04Run) run(t *testing.T) {
 		return &c04Sender{net: netName, gate: r.gate, reply: r.reply}
 	}
 	prefix := dht.ProtocolPrefix("/verif")
+	bucket := 20
+	if spec.K > 0 {
+		bucket = spec.K
+	}
+	consume := make(chan struct{}) // closed when the (slow) consumer may start reading
+	consuming := !spec.Slow
+	if consuming {
+		close(consume)
+	}
 	common := []dht.Option{
 		dht.Mode(dht.ModeClient), dht.DisableAutoRefresh(),
-		dht.BucketSize(20), dht.Validator(validator), dht.ValueDatastore(mds), dht.MaxRecordAge(0),
+		dht.BucketSize(bucket), dht.Validator(validator), dht.ValueDatastore(mds), dht.MaxRecordAge(0),
 		dht.WithCustomMessageSender(mkSender),
+	}
+	if spec.Slow {
+		common = append(common, dht.Resiliency(16)) // the lookup goes on until it has asked (nearly) everybody it heard of
 	}
 	var client c04Client
 	var pkFetch func(context.Context, peer.ID) (ci.PubKey, error)
@@ -655,6 +685,7 @@ func (r *c04Run) run(t *testing.T) {
 				mu.Unlock()
 				return
 			}
+			<-consume
 			for v := range ch {
 				mu.Lock()
 				r.obs.Stream = append(r.obs.Stream, c04ValN(v))
@@ -704,6 +735,12 @@ func (r *c04Run) run(t *testing.T) {
 		}
 		pend := r.gate.take()
 		if len(pend) == 0 {
+			if !consuming {
+				// everything waits for the caller to read the result channel: now it does
+				consuming = true
+				close(consume)
+				continue
+			}
 			// waiting for a timer (fullrt's settle ticker, a timeout)
 			idle++
 			if idle > 100 {
@@ -765,6 +802,10 @@ func (r *c04Run) run(t *testing.T) {
 		if n == 0 {
 			break
 		}
+	}
+	if !consuming {
+		consuming = true
+		close(consume)
 	}
 	// let everything still in flight finish: fail the parked requests, let the
 	// timeouts fire
@@ -924,6 +965,11 @@ func c04GenSpec(r *vfRand, i int) c04Spec {
 	for j := 0; j < 80; j++ {
 		s.Choices = append(s.Choices, r.Intn(1<<20))
 	}
+	if s.Op == "search" && s.Client != "fullrt" && r.Chance(15) {
+		// the caller does not read the result channel until everything else has stopped moving, on a node with a
+		// small bucket size: answers pile up behind the unread result
+		s.Slow, s.K = true, 2+r.Intn(2)
+	}
 	return s
 }
 
@@ -1002,6 +1048,17 @@ func c04Plan() []c04Spec {
 			}
 		}
 	}
+	// a slow consumer: ten responders hold records of ascending rank, the caller reads nothing until all of them
+	// have answered (canonical order: the best record arrives last)
+	for _, client := range []string{"std", "dual"} {
+		for _, k := range []int{2, 3} {
+			s := c04Spec{Client: client, Op: "search", Quorum: 0, Local: "valid", LocalSq: 1, Plan: fmt.Sprintf("slow-consumer/k%d", k), Slow: true, K: k}
+			for j := 0; j < 12; j++ {
+				s.Resps = append(s.Resps, v(2+j, 0))
+			}
+			out = append(out, s)
+		}
+	}
 	return out
 }
 
@@ -1073,6 +1130,11 @@ func c04Emit(cs *vfCases, run *c04Run, meta map[string]any) {
 		}
 	}
 	complete := len(seen) == len(s.Resps)
+	if s.K > 0 {
+		// small bucket size: the lookup only asks the peers nearest to the key, not every responder, so
+		// "every answer was in before the call returned" is not something the run can tell
+		complete = true
+	}
 	term := fmt.Sprintf("{| c_client := %s; c_op := %s; c_now := %d; c_quorum := %d%%nat; c_local := %s;\n   c_node := %s;\n   c_arrivals := %s;\n   c_complete := %s; c_stream := %s; c_result := %s |}",
 		client, op, c04T, quorum, local, node, vfList(arr), vfBool(complete), c04CoqVals(o.Stream), res)
 	tags := []string{s.Client, s.Op}
